@@ -193,6 +193,9 @@ class EvalContext(metaclass=NamespaceableMeta):
         self._ecfg = EvalContext.PartialChild(NodePath(), self, self._cfg)
         self._eval_cache.clear()
         self._eval_cache_id.clear()
+        self._tainted.clear() # marks of an earlier evaluation with this context say nothing about this config
+        self._in_progress.clear()
+        self._unsafe_seen = 0
         self.user_data = Bunch()
 
         try:
